@@ -88,36 +88,102 @@ def thread_rule(ctx):
     return res
 
 
-def _is_reversed(e, what):
-    """e == what[::-1] or reversed(what)"""
-    if isinstance(e, ast.Subscript) and norm_text(e.value) == what and isinstance(e.slice, ast.Slice):
-        s = e.slice
-        return s.lower is None and s.upper is None and s.step is not None and const_number(s.step) == -1
-    if isinstance(e, ast.Call) and norm_text(e.func) == "reversed" and len(e.args) == 1 and norm_text(e.args[0]) == what:
-        return True
-    if isinstance(e, ast.Call) and norm_text(e.func) == "list" and len(e.args) == 1:
-        return _is_reversed(e.args[0], what)
-    return False
+_SEQ_WRAPPERS = {"list", "tuple", "iter", "nn.ModuleList", "torch.nn.ModuleList"}
 
 
-def _inverse_sequence(e, what):
-    """Is e `(t.inverse for t in <reversed what>)` ?"""
+def seq_nf(e):
+    """Normal form of a sequence expression: (base text, reversed?, element map) with element
+    map in {"id", "inverse", "forward"}; None when the expression is not one of the
+    order-deciding forms (wrappers list/tuple/iter/ModuleList, [*x], reversed(x), x[::-1],
+    and one-generator comprehensions mapping t -> t | t.inverse | t.forward | InverseTransform(t))."""
+    if isinstance(e, (ast.Name, ast.Attribute)):
+        return (norm_text(e), False, "id")
+    if isinstance(e, (ast.List, ast.Tuple)) and len(e.elts) == 1 and isinstance(e.elts[0], ast.Starred):
+        return seq_nf(e.elts[0].value)
+    if isinstance(e, ast.Subscript) and isinstance(e.slice, ast.Slice):
+        sl = e.slice
+        inner = seq_nf(e.value)
+        if inner is None or sl.lower is not None or sl.upper is not None:
+            return None
+        if sl.step is None or const_number(sl.step) == 1:
+            return inner
+        if const_number(sl.step) == -1:
+            return (inner[0], not inner[1], inner[2])
+        return None
+    if isinstance(e, ast.Call) and len(e.args) == 1 and not e.keywords:
+        f = norm_text(e.func)
+        inner = seq_nf(e.args[0])
+        if inner is None:
+            return None
+        if f in _SEQ_WRAPPERS:
+            return inner
+        if f == "reversed":
+            return (inner[0], not inner[1], inner[2])
+        return None
     if isinstance(e, (ast.GeneratorExp, ast.ListComp)) and len(e.generators) == 1:
         g = e.generators[0]
-        if isinstance(g.target, ast.Name) and isinstance(e.elt, ast.Attribute) and e.elt.attr == "inverse" and norm_text(e.elt.value) == g.target.id and not g.ifs:
-            if _is_reversed(g.iter, what):
-                return "reversed-inverse"
-            if norm_text(g.iter) == what:
-                return "forward-order-inverse"
-        if isinstance(g.target, ast.Name) and norm_text(e.elt) == g.target.id and _is_reversed(g.iter, what):
-            return "reversed-forward"
+        if g.ifs or g.is_async or not isinstance(g.target, ast.Name):
+            return None
+        inner = seq_nf(g.iter)
+        if inner is None:
+            return None
+        t = g.target.id
+        el = e.elt
+        if isinstance(el, ast.Name) and el.id == t:
+            m = "id"
+        elif isinstance(el, ast.Attribute) and isinstance(el.value, ast.Name) and el.value.id == t and el.attr in ("inverse", "forward"):
+            m = el.attr
+        elif isinstance(el, ast.Call) and norm_text(el.func).split(".")[-1] == "InverseTransform" and len(el.args) == 1 and norm_text(el.args[0]) == t:
+            m = "inverse"
+        else:
+            return None
+        if inner[2] == "id":
+            return (inner[0], inner[1], m)
+        if m == "id":
+            return inner
+        return None
     return None
+
+
+def _qual_of(node):
+    names = []
+    n = getattr(node, "_parent", None)
+    while n is not None:
+        if isinstance(n, (ast.FunctionDef, ast.ClassDef)):
+            names.append(n.name)
+        n = getattr(n, "_parent", None)
+    return ".".join(reversed(names)) or "<module>"
+
+
+def _enclosing_seq(node):
+    """The outermost sequence-shaped ancestor of a comprehension (so that
+    `[t.inverse for t in ts][::-1]` is judged as a whole)."""
+    cur = node
+    while True:
+        par = getattr(cur, "_parent", None)
+        if isinstance(par, ast.Starred):
+            par = getattr(par, "_parent", None)
+        if par is None:
+            return cur
+        ok = False
+        if isinstance(par, ast.Subscript) and par.value is cur and isinstance(par.slice, ast.Slice):
+            ok = True
+        elif isinstance(par, ast.Call) and len(par.args) == 1 and par.args[0] is cur and norm_text(par.func) in _SEQ_WRAPPERS | {"reversed"}:
+            ok = True
+        elif isinstance(par, (ast.List, ast.Tuple)) and len(par.elts) == 1:
+            ok = True
+        elif isinstance(par, ast.comprehension) and par.iter is cur:
+            par = getattr(par, "_parent", None)
+            ok = par is not None
+        if not ok:
+            return cur
+        cur = par
 
 
 def order_rule(ctx):
     p = ctx.p
     cls = p.find_class("CompositeTransform", "nflows.transforms.base")
-    res = RuleResult("CMP-ORDER", "forward cascades the stored list in order; inverse cascades the parts' inverses over the reversed list")
+    res = RuleResult("CMP-ORDER", "forward cascades the stored list in order; inverse cascades the parts' inverses over the reversed list; wherever a composite's parts are inverted element-wise the list is reversed")
     for direction in ("forward", "inverse"):
         fi = cls.methods.get(direction)
         if fi is None:
@@ -135,18 +201,22 @@ def order_rule(ctx):
             if norm_text(a0) != "inputs" or norm_text(cx) != "context":
                 res.fail(Finding("CMP-ORDER", fi.module, fi.qualname, path.ret_node, "%s must cascade the inputs with the context" % direction))
                 continue
+            nf = seq_nf(fs)
+            if nf is None or nf[0] != "self._transforms":
+                res.undecide("CompositeTransform.%s" % direction, "cannot decide the order of the cascaded sequence `%s`" % norm_text(fs)[:80])
+                continue
+            _, rev, m = nf
             if direction == "forward":
-                if norm_text(fs) == "self._transforms":
+                if not rev and m in ("id", "forward"):
                     res.ok("forward cascades self._transforms in stored order")
                 else:
-                    res.fail(Finding("CMP-ORDER", fi.module, fi.qualname, path.ret_node, "forward must apply the transforms in the order given (found `%s`)" % norm_text(fs)[:60]))
+                    res.fail(Finding("CMP-ORDER", fi.module, fi.qualname, path.ret_node, "forward must apply the transforms' forward direction in the order given (found `%s`)" % norm_text(fs)[:60]))
             else:
-                k = _inverse_sequence(fs, "self._transforms")
-                if k == "reversed-inverse":
+                if rev and m == "inverse":
                     res.ok("inverse cascades t.inverse over the reversed list")
-                elif k == "forward-order-inverse":
+                elif m == "inverse":
                     res.fail(Finding("CMP-ORDER", fi.module, fi.qualname, path.ret_node, "inverse applies the parts' inverses in the forward order; it must use the reversed list"))
-                elif k == "reversed-forward":
+                elif rev:
                     res.fail(Finding("CMP-ORDER", fi.module, fi.qualname, path.ret_node, "inverse reverses the list but applies the parts' forward direction instead of `.inverse`"))
                 else:
                     res.fail(Finding("CMP-ORDER", fi.module, fi.qualname, path.ret_node, "inverse must cascade (t.inverse for t in reversed transforms); found `%s`" % norm_text(fs)[:60]))
@@ -154,10 +224,35 @@ def order_rule(ctx):
             res.undecide("CompositeTransform.%s" % direction, "no cascade call returned")
     # stored list is the constructor's iterable in order
     ai = p.attrs(cls).get("_transforms")
-    if ai is not None and ai.value is not None and norm_text(ai.value) in ("nn.ModuleList(transforms)", "torch.nn.ModuleList(transforms)"):
-        res.ok("constructor stores the transforms in the order given")
+    nf = seq_nf(ai.value) if ai is not None and ai.value is not None else None
+    if nf is not None and nf[0] == "transforms":
+        if nf == ("transforms", False, "id"):
+            res.ok("constructor stores the transforms in the order given")
+        else:
+            res.fail(Finding("CMP-ORDER", cls.module, "CompositeTransform.__init__", cls.node, "the constructor must store the transforms as given, in order (found `%s`)" % norm_text(ai.value)[:60], construct="_transforms of CompositeTransform"))
     else:
-        res.fail(Finding("CMP-ORDER", cls.module, "CompositeTransform.__init__", cls.node, "the constructor must store nn.ModuleList(transforms) as given", construct="_transforms of CompositeTransform"))
+        res.undecide("CompositeTransform.__init__", "cannot decide that `%s` is the given transforms in order" % (norm_text(ai.value)[:80] if ai is not None and ai.value is not None else None))
+    # element-wise inversion of any composite's part list must go with a reversal
+    n_inv = 0
+    for mi in [_base(p)]:
+        for node in ast.walk(mi.tree):
+            if not isinstance(node, (ast.GeneratorExp, ast.ListComp)):
+                continue
+            own = seq_nf(node)
+            if own is None or own[2] != "inverse" or not own[0].endswith("._transforms"):
+                continue
+            top = _enclosing_seq(node)
+            nf = seq_nf(top)
+            if nf is None:
+                nf = own
+            n_inv += 1
+            where = _qual_of(node)
+            if nf[1]:
+                res.ok("%s: inverses of %s enumerated over the reversed list" % (where, nf[0]))
+            else:
+                res.fail(Finding("CMP-ORDER", mi, where, node, "the parts' inverses of `%s` are enumerated in forward order: the inverse of a cascade is the reversed list of inverses" % nf[0]))
+    if n_inv < 1:
+        raise AnalysisIncomplete("CMP-ORDER: no element-wise inversion of a part list found (expected CompositeTransform.inverse)")
     return res
 
 
